@@ -62,7 +62,7 @@ PROPERTIES = {
     },
     "C08": {
         "title": "ACKs name only packets really received; packet numbers always reconstruct",
-        "steps": [net("C08"), tx("txmc_ackmgr", "txmc_c08_ackmgr", expect=1)],
+        "steps": [net("C08"), tx("txmc_ackmgr", "txmc_c08_ackmgr", expect=1), seq("c08.*")],
         "technique": "deviation-bounded exploration with an ACK monitor over clear-text frames (tx ACK ranges vs. rx packet numbers, promptness deadlines)",
         "level_text": NET_NOTE + "Oracle ACK: every range of every ACK frame an endpoint sends is a subset of the packet numbers it decrypted and processed in that space; packet numbers strictly increase per space; every ack-eliciting 1-RTT packet is covered by an ACK sent within max_ack_delay+1 ms, or within 1 ms when it arrived out of order (below an already received ack-eliciting packet, or above a remembered gap).",
         "level_note": "Exemptions derived from the record only: closing/closed endpoint; packets at or below the Largest Acknowledged of an own ACK frame that the peer acknowledged (RFC 9000 13.2.4 lets the receiver forget them); windows in which the endpoint itself sent a congestion-controlled packet within one smoothed RTT (its pacer gates all transmissions, 'allowed to send'). Observation (not a finding): s2n-quic paces ACK-only packets too, so after a large RTT sample ACKs can leave later than max_ack_delay.",
@@ -125,11 +125,38 @@ PROPERTIES = {
     },
     "C10": {
         "title": "Congestion control keeps its window and sending within RFC 9002 bounds",
-        "steps": [net("C10")],
+        "steps": [seq("c10.*"), net("C10")],
         "technique": "deviation-bounded exploration with a send-gate monitor over the event stream (independent bytes-in-flight bookkeeping vs. the reported window)",
         "level_text": NET_NOTE + "Oracle SENDGATE: the monitor keeps its own bytes-in-flight sum from packet_sent / ack_range_received / packet_lost / key_space_discarded events; a congestion-controlled packet in normal transmission mode may only be sent while that sum is below the congestion window last reported, except one packet after a congestion event (RFC 9002 7.3.2); probes (loss-recovery mode) are exempt. CUBIC and BBR scenarios, losses at every index.",
-        "level_note": "This revision registers the end-to-end clause; the controller-level clauses (window floor, no growth when application limited, one reduction per round trip, persistent congestion) are decided by the seqmc c10 families once wired. Congestion-controlled = carries an ack-eliciting frame (s2n-quic's definition).",
+        "level_note": "seqmc c10.cubic / c10.bbr: explicit-state BFS (depth 5 quick, 6-7 thorough) over send/ack/loss/ECN/MTU/discard/idle events on the real controllers at datagram sizes 1200/1500/9000 with the window-floor, overflow, in-flight, no-increase-on-signal, one-reduction-per-round-trip, persistent-congestion-minimum and no-growth-while-application-limited clauses. Congestion-controlled = carries an ack-eliciting frame (s2n-quic's definition).",
         "design_ref": "DESIGN.md §3 C10",
         "assumptions": ["small-scope hypothesis", "event stream is faithful"],
+    },
+    "C06": {
+        "title": "Only authentic packets have effect, and each at most once",
+        "steps": [seq("c06.*"), net("C06")],
+        "technique": "bounded-exhaustive tampering of real protected packets (every bit / truncation / splice) + differential deviation-bounded exploration with forged datagrams injected next to every genuine datagram",
+        "level_text": "seqmc c06.aead: for all three cipher suites and Initial keys, real encrypt+protect output is byte-compared with an independent RFC 9001 5.3/5.4 transcription on bare aws-lc primitives, and every single-bit flip, every truncation, every two-packet splice and garbage of the same size must be rejected by the real unprotect+decrypt; c06.nonce: iv xor pn is pairwise distinct over 0..5000, around 2^32 and up to 2^62-1 and matches RFC 9001 Appendix A. netmc forge family (real TLS): for every datagram index of an established transfer, all single-byte mutations (x ^01/^80/^ff), all truncations, splices with the previous datagram and garbage datagrams claiming the genuine source address are delivered just before the genuine datagram; the run must be observationally identical (application log, processed (space, pn) multiset, every transmitted packet with its ACK ranges and stream frames, close events) to the same schedule without the forgeries. Replays: every datagram re-delivered 1 ms / 60 ms / 400 ms later - no packet number reaches frame processing twice, ACKs name only processed packets (ACK monitor), data intact.",
+        "level_note": "Differential oracle needs no expected values. Stateless resets with the peer's genuine token are excluded by construction (forgeries are mutations/garbage). Cipher suite end-to-end is the one the TLS provider negotiates (component part covers all three).",
+        "design_ref": "DESIGN.md §3 C06",
+        "assumptions": ["small-scope hypothesis", "aws-lc primitives are correct (trusted base of the independent transcription)"],
+    },
+    "C14": {
+        "title": "Transport parameters are validated and applied exactly as RFC 9000 specifies",
+        "steps": [seq("c14.*")],
+        "technique": "bounded-exhaustive enumeration of raw transport-parameter blocks against an independent RFC 9000 18.2/7.4 acceptance table",
+        "level_text": "1.9 M (quick) / 29 M (thorough) raw blocks built byte by byte (never with the repository's encoder): every parameter at and around each bound in every legal varint size, malformed forms, framing damage, all ordered pairs (=> every duplicate) and triples of 623 atoms, unknown/GREASE ids, server-only parameters in client blocks, both roles; oracle: real decode accepts <=> the table accepts, every decoded field equals the declared value or the RFC default, and the values derived for the connection (flow-control limits, stream limits, ACK settings, datagram limits, idle timeout) equal the declared ones.",
+        "level_note": "Component level (s2n-quic-core public API). The connection-id matching clause and the error code put on the wire live in private transport code and are not covered in this revision. One defect was repaired (max_ack_delay 2^14, fix: commit); three deviations are listed known findings (non-minimal ack_delay_exponent rejected, short retry_source_connection_id rejected, preferred_address with empty connection id accepted).",
+        "design_ref": "DESIGN.md §3 C14",
+        "assumptions": ["the acceptance table in engines/seqmc/src/c14.rs transcribes RFC 9000 correctly"],
+    },
+    "C15": {
+        "title": "Packet-protection keys respect AEAD limits and survive key updates",
+        "steps": [seq("c15.*"), net("C15")],
+        "technique": "explicit-state BFS over two real KeySets joined by a bag of in-flight packets + deviation-bounded e2e exploration across real key updates (hook H5)",
+        "level_text": "seqmc c15.keyset: two real KeySet<K> (harness key whose ciphertext names its generation; confidentiality limit 4/3, integrity limit 3) exchange real encoded short packets through a bag with arbitrary reordering, loss and forgeries, timers and PTO ticks, depth 10 quick / 14 thorough; oracle: per generation #encrypts <= limit and the limit error instead of exceeding, AEAD_LIMIT_REACHED exactly at the integrity limit, generation non-decreasing in packet number per sender, genuine packets of generations c-1 (within the retention window), c, c+1 decrypt, forged packets never rotate the phase. netmc keyup family: real connections (s2n-tls and null TLS) forced by hook H5 to update keys every 40-60 packets, every datagram dropped / delayed / duplicated once; oracle: data intact, completion, key generations advance by exactly 1, no genuine packet is ever dropped as undecryptable, no transport error.",
+        "level_note": "The defect found by both engines (delayed old-phase packet rotated the keys back) was repaired by a fix: commit. Hook H5 only changes the key update window through an environment variable in cfg(aws_s2n_quic_verif) builds; N is kept above what one PTO can send so that the artificial limit cannot create states real limits cannot reach.",
+        "design_ref": "DESIGN.md §3 C15",
+        "assumptions": ["small-scope hypothesis", "harness key implements the OneRttKey contract faithfully"],
     },
 }
